@@ -147,6 +147,10 @@ func c13(tier string) {
 		if strings.TrimSpace(message) == "" {
 			message = "m" + message
 		}
+		if mask&4 == 0 && r.Intn(3) == 0 {
+			// the same message text under different prefix bindings, in different profiles of one process
+			message = "value {{ex.k1}} and {{ ex.k2 }} of {{ex.zz}} / {{ex.k3}}"
+		}
 		// reference renderer over the message AS WRITTEN: every documented placeholder {{ prefix.property }} is
 		// replaced by the focus node's value (null when absent), then double quotes are shown as single quotes
 		skip := false
@@ -196,6 +200,20 @@ func c13(tier string) {
 			return
 		}
 		dtext, ids := mkData(listVal)
+		// the namespace bound to the prefix `ex` alternates between profiles of one worker process
+		const altNS = "http://alt.example/vocab#"
+		ns := lib.EX
+		if (i/16)%2 == 1 {
+			ns = altNS
+			ptext = strings.Replace(ptext, "  ex: "+lib.EX, "  ex: "+altNS, 1)
+			dtext = strings.ReplaceAll(dtext, lib.EX, altNS)
+			nids := map[string]bool{}
+			for id := range ids {
+				nids[strings.Replace(id, lib.EX, altNS, 1)] = true
+			}
+			ids = nids
+			ctx.Count("profiles_binding_ex_to_the_alternative_namespace", 1)
+		}
 		hostile := mask
 		key := fmt.Sprintf("%x", hash(pname+"\x00"+vname+"\x00"+message+"\x00"+listVal))
 		_ = hostile
@@ -220,7 +238,7 @@ func c13(tier string) {
 			ctx.Violation("profile-name", fmt.Sprintf("profileName %q, profile is named %q", clip(rep.ProfileName, 100), clip(pname, 100)), base)
 		}
 		// expected results: vname -> t_fail ; lv/lvall/lvsome -> l_other only
-		want := map[string][]string{vname: {lib.EX + "t_fail"}, "lv": {lib.EX + "l_other"}, "lvall": {lib.EX + "l_other"}, "lvsome": {lib.EX + "l_other"}}
+		want := map[string][]string{vname: {ns + "t_fail"}, "lv": {ns + "l_other"}, "lvall": {ns + "l_other"}, "lvsome": {ns + "l_other"}}
 		got := rep.FocusByName()
 		names := map[string]bool{}
 		for k := range want {
@@ -237,7 +255,7 @@ func c13(tier string) {
 			}
 		}
 		for _, res := range rep.Results {
-			if res.Name == vname && res.Focus == lib.EX+"t_fail" && res.Message != expMsg.String() {
+			if res.Name == vname && res.Focus == ns+"t_fail" && res.Message != expMsg.String() {
 				ctx.Violation("message", fmt.Sprintf("resultMessage %q, expected %q (message as written: %q)", clip(res.Message, 160), clip(expMsg.String(), 160), clip(message, 160)), base)
 				break
 			}
